@@ -304,6 +304,14 @@ def abstract_int(name, lo, hi, *args):
     return v
 
 
+def abstract_real(name, lo, hi, *args):
+    """a real number in [lo, hi] that is a function of `args` only (see abstract_int)"""
+    v = NATIVE_ABSTRACT[name](*args)
+    if not (lo <= v <= hi):
+        raise AssertionError("abstract_real %s out of its declared range" % name)
+    return v
+
+
 NATIVE_ABSTRACT = {}
 
 
